@@ -41,4 +41,12 @@ def proj_ops(tier, rng, n):
             ops.append(f'dfwd {geo_gens.fb(sph[0])} {geo_gens.fb(sph[1])} {o2}')
     for _ in range(n):
         ops.append(f'dinv {geo_gens.fb(rng.uniform(-0.7, 0.7))} {geo_gens.fb(rng.uniform(-0.7, 0.7))} {rng.randrange(12)}')
+    # face-plane points at every scale down to 1e-15 around the face centre, and hugging the face edge (|.| ~ distance_to_edge) from both sides
+    for k in range(1, 16):
+        for _ in range(3 if tier == 'quick' else 20):
+            rho, g = 10.0 ** (-k) * rng.uniform(0.3, 3), rng.uniform(-math.pi, math.pi)
+            ops.append(f'dinv {geo_gens.fb(rho * math.cos(g))} {geo_gens.fb(rho * math.sin(g))} {rng.randrange(12)}')
+            d = 0.6180339887498949 * (1 + rng.choice([-1, 1]) * 10.0 ** (-k))
+            g0 = rng.randrange(5) * 2 * math.pi / 5 + rng.uniform(-0.5, 0.5)
+            ops.append(f'dinv {geo_gens.fb(d * math.cos(g0) / math.cos(g0 - round(g0 / (2 * math.pi / 5)) * 2 * math.pi / 5))} {geo_gens.fb(d * math.sin(g0) / math.cos(g0 - round(g0 / (2 * math.pi / 5)) * 2 * math.pi / 5))} {rng.randrange(12)}')
     return ops
